@@ -1497,6 +1497,23 @@ func (sc *serverConn) sendData(strm *Stream) bool {
 			}
 
 			if len(strm.pendingData) == 0 {
+				// The reader ended without handing over another byte: a body
+				// of unknown or zero length, or one whose last Read returned
+				// (0, io.EOF). END_STREAM has not gone out yet, and an empty
+				// DATA frame, which flow control does not count, carries it.
+				if strm.pendingEnd {
+					fr := AcquireFrameHeader()
+					fr.SetStream(strm.ID())
+
+					data := AcquireFrame(FrameData).(*Data)
+					data.SetEndStream(true)
+					data.SetPadding(false)
+
+					fr.SetBody(data)
+
+					sc.write(fr)
+				}
+
 				break
 			}
 		}
@@ -1536,6 +1553,12 @@ func (sc *serverConn) sendData(strm *Stream) bool {
 
 		strm.window -= step
 		sc.clientWindow -= step
+
+		// Nothing follows END_STREAM: asking the reader for more would end in
+		// a second one.
+		if end {
+			break
+		}
 	}
 
 	sc.closeBodyStream(strm)
